@@ -67,3 +67,59 @@ def r10_no_unconsumed_fetch(ck, P):
                     ck.violation(R, fn, 'fetch for the next iteration at %s' % bad.loc(), '%s loads a %s through a cursor carried round the loop at block %d and uses the value only in the following iteration: when the span ends exactly on the previous element the loop still performs this load, one element beyond what it consumes (beyond the row, and on the last row beyond the image storage)' % (fn, bad.ty, hdr), bad.loc())
                 else:
                     ck.ok(R, '%s/%s loop at block %d' % (un, fn, hdr))
+
+
+def r11_tail_access_needs_remaining_count(ck, P, rid='C04-R11'):
+    """T-GRD: after a budget loop (while (count >= K) { *cursor++ ...; count -= K; }) the element the cursor is left on is touched only
+    under a test that depends on the count: with nothing left, that element is the first one beyond the span."""
+    R = ck.rule(rid, 'after a loop that consumes a remaining count against a constant (while (w >= K) / while (w--)) and advances a cursor it accesses, every access to the element the cursor is left on is guarded by a condition computed from that count: an unconditional tail access touches the word after the span whenever the span ends exactly on a loop step', floor=13)
+    for un, u in sorted(P.units.items()):
+        if 'region' in un:
+            continue
+        L = _loops_of(u)
+        for fn, loops in sorted(L.items()):
+            f = u.functions.get(fn)
+            if f is None:
+                continue
+            for lp in loops:
+                blocks = set(lp['blocks']); hdr = lp['header']
+                curs = [p['v'] for p in lp['phis'] if p['ty'].endswith('*')]
+                cnts = [p['v'] for p in lp['phis'] if not p['ty'].endswith('*') and isinstance(p.get('step'), int) and p['step'] != 0]
+                def is_budget(c):
+                    for b in blocks:
+                        t = f.blocks[b].term
+                        if t.op != 'br' or not t.a or all(s_ in blocks for s_ in t.d['succ']):
+                            continue
+                        cc = f.v(t.a[0])
+                        if cc is not None and cc.op == 'icmp' and any(a == ['v', c] for a in cc.a) and any(a[0] == 'c' for a in cc.a):
+                            return True
+                    return False
+                cnts = [c for c in cnts if is_budget(c)]
+                if not curs or not cnts:
+                    continue
+                croots = set()
+                for c in cnts:
+                    croots |= common.value_arg_roots(f, ['v', c])
+                for c in curs:
+                    def through(x):
+                        return f.root(f.path(x.a[0] if x.op == 'load' else x.a[1])) == ('phi', c)
+                    if not any(x.op in ('load', 'store') and through(x) for b in blocks for x in f.blocks[b].insts):
+                        continue
+                    for x in f.insts():
+                        if x.bb.id in blocks or x.op not in ('load', 'store'):
+                            continue
+                        pth = f.path(x.a[0] if x.op == 'load' else x.a[1])
+                        if f.root(pth) != ('phi', c) or pth[1]:
+                            continue
+                        ck.saw(f)
+                        g = False
+                        for t, s in f.guard_edges(x.bb.id):
+                            if t.bb.id in blocks or not t.a or f.dominates_block(t.bb.id, hdr):
+                                continue
+                            if common.value_arg_roots(f, t.a[0]) & croots:
+                                g = True
+                        where = '%s/%s: %s at %s after the loop at block %d' % (un, fn, x.op, x.loc(), hdr)
+                        if g:
+                            ck.ok(R, where)
+                        else:
+                            ck.violation(R, fn, 'tail %s at %s' % (x.op, x.loc()), '%s %ss the element its cursor %s is left on after the loop at block %d without any test of the remaining count (%s): when the span ends exactly on a loop step nothing is left, and this access touches the first word beyond the span - beyond the row, and on the last row beyond the image' % (fn, x.op, f.by_id[c].dv or '', hdr, ', '.join(sorted(f.by_id[k].dv or '?' for k in cnts))), x.loc())
